@@ -108,14 +108,34 @@ def strat_b(tier):
         'lines': st.lists(_line_b, min_size=0, max_size=8 if tier == 'quick' else 16),
         'seps': st.lists(st.sampled_from(['\n', '\n', '\r\n']), min_size=1, max_size=4),
         'final': st.booleans(),
-        'kind': st.sampled_from(['bytesio', 'binfile', 'textfile']),
+        # 'textfile_w+': a text-mode handle opened for writing and reading, the content just written through it (not flushed)
+        'kind': st.sampled_from(['bytesio', 'binfile', 'textfile', 'textfile_w+']),
         'blocksizes': st.lists(st.sampled_from([1, 2, 3, 4, 5, 7, 8, 11, 16, -1, 0, 1000, 4096]),
                                min_size=2, max_size=5, unique=True),
+        # scale class: one of the lines is blown up to tens of thousands of (non-uniform) characters, read with the default block size
+        'long': st.integers(0, 15).flatmap(lambda i: st.none() if i else st.tuples(st.integers(0, 7), st.sampled_from([4097, 66000, 70001, 140000])).map(list)),
     })
 
 
+def _long_line(n):
+    out = []
+    i = 0
+    size = 0
+    while size < n:
+        t = '%d,' % (i * 7919)
+        out.append(t)
+        size += len(t)
+        i += 1
+    return ''.join(out)[:n]
+
+
 def _content_b(case):
-    lines, seps = case['lines'], case['seps']
+    lines, seps = list(case['lines']), case['seps']
+    if case.get('long'):
+        idx, n = case['long']
+        if not lines:
+            lines = ['x']
+        lines[idx % len(lines)] = _long_line(n) + lines[idx % len(lines)]
     parts = []
     for i, l in enumerate(lines):
         if any(c in l for c in '\n\r'):
@@ -134,6 +154,10 @@ def _open_kind(kind, data, tmpdir):
         f.write(data)
     if kind == 'binfile':
         return open(path, 'rb')
+    if kind == 'textfile_w+':
+        f = open(path, 'w+', encoding='utf-8', newline='')
+        f.write(data.decode('utf-8'))       # stays in the text layer's buffer until someone flushes
+        return f
     return open(path, 'r', encoding='utf-8')
 
 
@@ -143,14 +167,18 @@ def run_b(case):
     data = text.encode('utf-8')
     n = len(data)
     kind = case['kind']
-    as_text = kind == 'textfile'
+    as_text = kind in ('textfile', 'textfile_w+')
     base = text.splitlines() if as_text else data.splitlines()
     # the two accepted readings of "lines" for a file that ends with a newline
     empty = '' if as_text else b''
     exp_a = list(reversed(base))
     exp_b = ([empty] + exp_a) if (data.endswith(b'\n')) else exp_a
     bss = []
-    for b in case['blocksizes']:
+    blocksizes = case['blocksizes']
+    if case.get('long'):
+        blocksizes = [b for b in blocksizes if b >= 16 or b <= 0][:2] + [4096, 8192]    # tiny blocks on a huge line: quadratic, and not the point
+        out.label('long_line:%d' % case['long'][1])
+    for b in blocksizes:
         b = {0: max(1, n), -1: max(1, n - 1)}.get(b, b)
         if b == 1000:
             b = n + 1
@@ -166,6 +194,8 @@ def run_b(case):
         out.label('leading_blank_line')
     if case['final']:
         out.label('final_newline')
+    if kind == 'textfile_w+':
+        out.label('unflushed_text_handle')
     results = []
     with tempfile.TemporaryDirectory(prefix='c19b') as tmpdir:
         for b in bss:
@@ -190,13 +220,13 @@ def run_b(case):
                 return out.fail('b.break-in-line', 'content %r blocksize %d (%s): item %r keeps a line break; got %r' % (
                     data, b, kind, item, got))
         if got != exp_a and got != exp_b:
-            return out.fail('b.lines-mismatch', 'content %r blocksize %d (%s): got %r, expected %r%s' % (
-                data, b, kind, got, exp_a, '' if exp_a == exp_b else ' (or with a leading empty string)'))
+            return out.fail('b.lines-mismatch', 'content %s blocksize %d (%s): got %s, expected %s%s' % (
+                _dsc(data), b, kind, _short(got), _short(exp_a), '' if exp_a == exp_b else ' (or with a leading empty string)'))
     first = results[0][1]
     for b, got in results[1:]:
         if got != first:
-            return out.fail('b.blocksize-dependent', 'content %r (%s): blocksize %d -> %r but blocksize %d -> %r' % (
-                data, kind, results[0][0], first, b, got))
+            return out.fail('b.blocksize-dependent', 'content %s (%s): blocksize %d -> %s but blocksize %d -> %s' % (
+                _dsc(data), kind, results[0][0], _short(first), b, _short(got)))
     return out
 
 
